@@ -128,3 +128,46 @@ def register_pruning(reg):
                  ('cutout[segment_mask] = 0', 'cutout[segment_mask] = label'),
                  ('if np.count_nonzero(segment_mask) < npixels:', 'if np.count_nonzero(cutout) < npixels:')],
     ))
+    register_relabel(reg)
+
+
+def register_relabel(reg):
+    """C04 "labels are 1..N": after pruning, the k-th kept label (in increasing order) becomes
+    k + 1 on every pixel that carried it and background stays background -- also when nothing was
+    pruned (then the kept labels are already 1..N and the image is returned as it is).
+    Preconditions are what the pruning loop establishes: the kept labels are a strictly increasing
+    selection of 1..len(labels) and every non-zero pixel carries a kept label."""
+    box = '(0, segment_img.shape[0]), (0, segment_img.shape[1])'
+    n = 'len(segm_labels)'
+    reg.add(Contract(
+        target=D + '_detect_sources', props=['C04', 'C05', 'C06'], tag='relabel-kept-components',
+        block=('nlabels', 'segment_img'), block_like='len(segm_labels)',
+        params={'segment_img': ('arr', 2, 'int', 'nonempty'), 'segm_labels': ('seq', 'int'),
+                'labels': ('seq', 'int')},
+        requires=[
+            f'{n} >= 1 and {n} <= len(labels)',
+            'forall(lambda k: labels[k] == k + 1, (0, len(labels)))',
+            f'forall(lambda k: segm_labels[k] >= 1 and segm_labels[k] <= len(labels), (0, {n}))',
+            # strictly increasing integers (stated with the gap, which is what "strictly
+            # increasing" means for integers and what z3 cannot derive by induction itself)
+            f'forall(lambda j, k: implies(j < k, segm_labels[k] - segm_labels[j] >= k - j), '
+            f'(0, {n}), (0, {n}))',
+            f'forall(lambda i, j: segment_img[i, j] == 0 or exists(lambda k: segm_labels[k] == '
+            f'segment_img[i, j], (0, {n})), {box})',
+        ],
+        ensures=[
+            ('background-stays-background',
+             f'forall(lambda i, j: implies(old_segment_img[i, j] == 0, segment_img[i, j] == 0), {box})'),
+            ('kth-kept-label-becomes-k-plus-one',
+             f'forall(lambda i, j: forall(lambda k: implies(old_segment_img[i, j] == segm_labels[k], '
+             f'segment_img[i, j] == k + 1), (0, {n})), {box})'),
+            ('shape', 'segment_img.shape == old_segment_img.shape'),
+            ('the-label-list-handed-on-is-1-to-N',
+             f'len(labels) == {n} and forall(lambda k: labels[k] == k + 1, (0, {n}))'),
+        ],
+        mutants=[('label_map[segm_labels] = labels', 'label_map[labels] = segm_labels'),
+                 ('            labels = np.arange(nlabels, dtype=segment_img.dtype) + 1',
+                  '            labels = np.arange(nlabels, dtype=segment_img.dtype)'),
+                 ('if len(labels) != nlabels:', 'if len(labels) == nlabels:'),
+                 ('segment_img = label_map[segment_img]', 'segment_img = label_map[segment_img] * 1 + (segment_img > 1)')],
+    ))
